@@ -857,6 +857,21 @@ class NetWorld(World):
             raise Skip()
         return pairs[op["a"] % len(pairs)]
 
+    def _carried_outside(self, tn):
+        """Labels carried by tensor objects the user holds outside ``tn``.
+        A rewrite that changes the size of such a label through ``tn`` (a
+        partial view of a hyper-edge) is a user error, not a map defect."""
+        mine = {id(t) for t in tn.tensor_map.values()}
+        out = set()
+        for other in self.nets:
+            for t in other.tensor_map.values():
+                if id(t) not in mine:
+                    out.update(t.inds)
+        for t in self.loose:
+            if id(t) not in mine:
+                out.update(t.inds)
+        return out
+
     def _unique_tag(self, tn, tid, tagname):
         """Structural methods address tensors by tags: give the tensor a
         private tag (a public operation in itself)."""
@@ -948,7 +963,7 @@ class NetWorld(World):
             self._try(lambda: tn.insert_gauge(U, "P", "Q"))
             tn.drop_tags(["P", "Q"])
         elif what == "fuse_multibonds":
-            if repeated:
+            if repeated or (set(tn._inner_inds) & self._carried_outside(tn)):
                 raise Skip()
             res = self._try(lambda: tn.fuse_multibonds(inplace=inplace))
         elif what == "isel":
@@ -969,6 +984,9 @@ class NetWorld(World):
         elif what in ("canonize_between", "compress_between"):
             ix, ta, tb = self._two_connected(tn, op)
             if hyper or repeated:
+                raise Skip()
+            shared = set(tn.tensor_map[ta].inds) & set(tn.tensor_map[tb].inds)
+            if shared & self._carried_outside(tn):
                 raise Skip()
             self._unique_tag(tn, ta, "P")
             self._unique_tag(tn, tb, "Q")
